@@ -73,6 +73,9 @@ func StatusFilter(status rspb.Status) FilterFunc {
 		if rls == nil {
 			return true
 		}
+		if rls.Info == nil {
+			return false
+		}
 		return rls.Info.Status == status
 	})
 }
